@@ -117,6 +117,8 @@ class Gen:
         if self.active and self.boolean(0.5):
             kinds += ['elemwise'] * 3
         kind = self.choice(kinds)
+        if self.differentiable and dtype == 'float' and not any(a['dtype'] == 'float' for a in self.args.values()):
+            kind = 'arg'
         if kind == 'arg':
             same = [k for k, a in self.args.items() if a['dtype'] == dtype and a['shape'] == list(shape) and 'range' not in a]
             if same and self.boolean(0.6):
@@ -161,7 +163,9 @@ class Gen:
         if dtype in ('float', 'complex'):
             ops += ['div', 'powc', 'powc', 'unary', 'unary', 'cast']
         if dtype == 'float':
-            ops += ['pow', 'abs', 'min', 'max', 'mod', 'real', 'imag', 'arctan2', 'abs_c', 'sign']
+            ops += ['pow', 'abs', 'min', 'max', 'mod', 'real', 'imag', 'arctan2', 'abs_c', 'sign', 'polyval']
+            if nd >= 1 and 1 <= shape[-1] <= 4:
+                ops += ['legendre']
         if dtype == 'int':
             ops += ['powi', 'abs', 'sign', 'min', 'max', 'mod', 'floordiv', 'cast']
         if dtype == 'complex':
@@ -502,6 +506,19 @@ class Gen:
         ch = [self.gen(dtype, cs, depth, 'mul') for _ in range(2)]
         return self.emit('dot', ch, dict(axis=k), dtype, shape)
 
+    def g_polyval(self, dtype, shape, depth):
+        if len(shape) > 3: return None
+        k = self.integers(0, len(shape))     # split: points axes shape[:k], coefficient axes shape[k:]
+        nv = self.choice([1, 1, 2])
+        deg = self.choice([0, 1, 2, 2, 3] if nv == 1 else [0, 1, 2])
+        nc = deg + 1 if nv == 1 else (deg + 1) * (deg + 2) // 2
+        coeffs = self.gen('float', shape[k:] + [nc], depth, 'polyval')
+        points = self.gen('float', shape[:k] + [nv], depth, 'polyval')
+        return self.emit('polyval', [coeffs, points], dict(nv=nv), dtype, shape)
+
+    def g_legendre(self, dtype, shape, depth):
+        return self.emit('legendre', [self.gen('float', shape[:-1], depth, 'unary')], dict(degree=shape[-1] - 1), dtype, shape)
+
     # loops
     def _loopname(self):
         used = {n for n, _ in self.active}
@@ -611,7 +628,8 @@ def _arr(vals, dtype, shape):
 
 
 class Ref:
-    def __init__(self, prog):
+    def __init__(self, prog, smooth=False):
+        self.smooth = smooth   # also reject points where a composed operator is not differentiable (C04)
         self.prog = prog
         self.nodes = prog['nodes']
 
@@ -713,6 +731,8 @@ class Ref:
         if op == 'equal': return numpy.equal(C(0), C(1))
         if op == 'powc':
             a = C(0)
+            if self.smooth and p['e'] != int(p['e']) and (a == 0).any():
+                raise NonFinite('fractional power at zero is not differentiable')
             if dtype == 'complex' and p['e'] != int(p['e']) and ((a.imag == 0) & (a.real <= 0)).any():
                 raise NonFinite('complex power on its branch cut (depends on the sign of zero)')
             return numpy.power(a, NPDT[dtype](p['e']))
@@ -721,6 +741,8 @@ class Ref:
         if op == 'unary':
             x = C(0); f = p['f']
             if f == 'log1pabs': return numpy.log(abs(x) + 1)
+            if f in ('arcsin_t', 'arccos_t') and self.smooth and (abs(numpy.tanh(x)) > 1 - 1e-9).any():
+                raise NonFinite('arcsin/arccos at the end of its domain is not differentiable')
             if f == 'arcsin_t': return numpy.arcsin(numpy.tanh(x))
             if f == 'arccos_t': return numpy.arccos(numpy.tanh(x))
             if f == 'arctanh_t': return numpy.arctanh(numpy.tanh(x) * .5)
@@ -827,6 +849,12 @@ class Ref:
             return numpy.concatenate([C(0), C(1)], axis=p['axis'])
         if op == 'dot':
             return (C(0) * C(1)).sum(p['axis'])
+        if op == 'polyval':
+            import nutils_poly
+            return nutils_poly.eval_outer(numpy.ascontiguousarray(C(0), dtype=float), numpy.ascontiguousarray(C(1), dtype=float))
+        if op == 'legendre':
+            x = C(0)
+            return numpy.moveaxis(numpy.polynomial.legendre.legval(x, numpy.eye(p['degree'] + 1)), 0, -1)
         if op == 'loopsum':
             acc = numpy.zeros(shape, NPDT[dtype])
             for j in range(p['length']):
@@ -947,6 +975,8 @@ def build(prog):
         elif op == 'stack': r = ev.stack([C(j) for j in range(len(n['ch']))], p['axis'])
         elif op == 'concat': r = ev.concatenate([C(0), C(1)], p['axis'])
         elif op == 'dot': r = ev.dot(C(0), C(1), p['axis'])
+        elif op == 'polyval': r = ev.Polyval(C(0), C(1))
+        elif op == 'legendre': r = ev.Legendre(C(0), p['degree'])
         elif op == 'loopsum': r = ev.loop_sum(C(0), ev.loop_index(p['loop'], p['length']))
         elif op == 'loopcat': r = ev.loop_concatenate(C(0), ev.loop_index(p['loop'], p['length']))
         else: raise NotImplementedError(op)
